@@ -62,6 +62,8 @@ def template(kind='vars', extra='', lit=None):
 class Counter:
     """an iterator over 1..L (L=-1: unbounded) that counts how far it has been pulled"""
 
+    nones = False     # True: every third element is None (an element like any other)
+
     def __init__(self, L, cap=100000):
         self.L = L
         self.n = 0
@@ -76,7 +78,7 @@ class Counter:
         if self.n >= self.cap:
             raise RuntimeError('RUNAWAY: pulled %d elements' % self.n)
         self.n += 1
-        return self.n
+        return None if (self.nones and self.n % 3 == 2) else self.n
 
 
 class LazySeq:
@@ -150,6 +152,11 @@ def observe(par, kind='vars', seqkind='list', as_str=False, extra=''):
         pulls = lambda: 0  # noqa
     elif seqkind == 'gen':
         c = Counter(L)
+        seq = c
+        pulls = lambda: c.n  # noqa
+    elif seqkind == 'gennone':
+        c = Counter(L)
+        c.nones = True
         seq = c
         pulls = lambda: c.n  # noqa
     elif seqkind == 'genfn':
@@ -245,3 +252,48 @@ def observe_lists(par, as_str=False, seqkind='list'):
             r.append([a + 1, b + 1])
         return r
     return {'p': list(par), 'w': [w[0], w[-1]], 'nb': lst(mn.group(1)), 'pb': lst(mp.group(1)), 'sizes_ok': ok}
+
+
+# ---------------------------------------------------------------------------------------------
+# the tag forms <dtml-in ... previous> / <dtml-in ... next>
+
+_FORM = ('<dtml-in seq %s start=st end=en size=sz orphan=orp overlap=ov>W<dtml-var sequence-step-start>,<dtml-var sequence-step-end>;'
+         '%s<dtml-var %s-sequence-start-number>,<dtml-var %s-sequence-end-number>,<dtml-var %s-sequence-size>;<dtml-else>NONE</dtml-in>')
+_tf = {}
+
+
+def observe_forms(par, as_str=False, seqkind='list'):
+    """render both forms; returns {p, w, pf, nf, sizes_ok} or {p, err}"""
+    from DocumentTemplate.DT_HTML import HTML
+    L, start, end, size, orphan, overlap = par
+    if not _tf:
+        _tf['previous'] = HTML(_FORM % ('previous', 'F', 'previous', 'previous', 'previous'))
+        _tf['next'] = HTML(_FORM % ('next', 'F', 'next', 'next', 'next'))
+        _tf['loop'] = HTML('<dtml-in seq start=st end=en size=sz orphan=orp overlap=ov><dtml-if sequence-start>'
+                           'W<dtml-var sequence-step-start>,<dtml-var sequence-step-end>;</dtml-if></dtml-in>')
+    conv = str if as_str else int
+    seq = list(range(1, L + 1))
+    if seqkind == 'tuple':
+        seq = tuple(seq)
+    kw = dict(seq=seq, st=conv(start), en=conv(end), sz=conv(size), orp=conv(orphan), ov=conv(overlap))
+    out = {'p': list(par), 'sizes_ok': True}
+    try:
+        lw = re.match(r'W(-?\d+),(-?\d+);', _tf['loop'](**kw))
+        out['w'] = [int(lw.group(1)), int(lw.group(2))]
+        for form, key in (('previous', 'pf'), ('next', 'nf')):
+            txt = _tf[form](**kw)
+            if txt == 'NONE':
+                out[key] = [0, UNDEF, UNDEF]
+                continue
+            m = re.match(r'W(-?\d+),(-?\d+);F(-?\d+),(-?\d+),(-?\d+);$', txt)
+            if m is None:
+                return {'p': list(par), 'err': 'unparsable output of the %s form: %r' % (form, txt[:100])}
+            ws, we, fs, fe, fz = (int(x) for x in m.groups())
+            if [ws, we] != out['w']:
+                return {'p': list(par), 'err': 'the %s form computed the window %s, the loop %s' % (form, [ws, we], out['w'])}
+            if fz != fe + 1 - fs:
+                out['sizes_ok'] = False
+            out[key] = [1, fs, fe]
+    except Exception as e:  # noqa
+        return {'p': list(par), 'err': type(e).__name__ + ': ' + str(e)[:80]}
+    return out
